@@ -129,10 +129,11 @@ class ResType:
 
 
 class Package:
-    def __init__(self, pid, name, types, header_size=288, utf8_types=True, utf8_keys=True, extra_chunks=(), unused_type_names=()):
+    def __init__(self, pid, name, types, header_size=288, utf8_types=True, utf8_keys=True, extra_chunks=(), unused_type_names=(), pre_chunks=()):
         self.pid, self.name, self.types, self.header_size = pid, name, types, header_size
         self.utf8_types, self.utf8_keys = utf8_types, utf8_keys
-        self.extra_chunks = list(extra_chunks)  # raw chunks appended after the types (library / overlayable ...)
+        self.pre_chunks = list(pre_chunks)  # raw chunks between the key pool and the first typeSpec (aapt2 puts the library chunk there)
+        self.extra_chunks = list(extra_chunks)  # raw chunks appended after the types (overlayable, staged alias ...)
         self.unused_type_names = list(unused_type_names)  # type names at the end of the type pool with no typeSpec/type chunk
 
 
@@ -182,6 +183,8 @@ def build(table):
         for n in p.unused_type_names:
             tpool.add(n, unique=True)
         body = bytearray()
+        for x in p.pre_chunks:
+            body += x
         for tid0, t in enumerate(p.types):
             tid = tid0 + 1
             if not t.chunks:
